@@ -122,6 +122,27 @@ def classify(g, c):
     return cert_tag, cert_content, cert_out, z3.BoolVal(False)
 
 
+def select_through_parse_file(I, prog, block, lcs, mode):
+    """blocks::parse_file on one block: the file system and the grammar are stubs (the block parser hands
+    back `block`), everything between them - grammar lookup, the two intersection tests, the filter - is
+    the crate's MIR.  Returns Option<BlockWithContext> as an Enum value."""
+    from . import c16
+    from mirsym.models import new_string
+    table, _names, _st = c16.real_table(prog)
+    f_pf = prog.find_fn('parse_file')
+    I.stubs['FileSystem::read_to_string'] = lambda I2, a, ci, dt: Ok(new_string(I2, b'source'))
+    I.stubs['BlocksParser::parse'] = lambda I2, a, ci, dt: Ok(VecVal([block]))
+    filt = Enum('BlocksFilter', prog.variant_index('BlocksFilter', mode), mode)
+    r = I.call_fn(f_pf, [SStr(tuple(b'f.js'), I.new_alloc(), 0), Ref(Cell(lcs), ()), filt,
+                         Ref(Cell(Struct('FakeFS', ())), ()), Ref(Cell(table), ()), Ref(Cell(MapVal((), 'HashMap')), ())])
+    if r.v != 0 or r.f[0].v != 1:
+        raise EngineError('parse_file did not return Ok(Some(..)) under total stubs: %r' % (r,))
+    bwcs = get_field(prog, r.f[0].f[0], 'FileBlocks', 'blocks_with_context').items
+    if len(bwcs) > 1:
+        raise EngineError('one block in, %d out' % len(bwcs))
+    return Some(bwcs[0]) if bwcs else NONE
+
+
 def run_eol(task):
     """A removed line re-added with identical text (git: `\\ No newline at end of file` edits, with or
     without the marker line between them), anywhere relative to the block - its end-tag line included:
@@ -133,7 +154,6 @@ def run_eol(task):
     prog = driver.load_program()
     stats = PathStats()
     f_lc = prog.find_fn('line_changes')
-    clo = prog.fns['parse_file::{closure#0}'][0]
     out = dict(violations=[], samples=[], obligations=0, cover={}, panic_paths=0)
     holder = {}
     roles = set()
@@ -155,12 +175,7 @@ def run_eol(task):
         I.stubs['line_diff'] = lambda I2, a, ci, dt: VecVal(())
         lcs = I.call_fn(f_lc, [Ref(Cell(pf), ())])
         holder['lcs'] = lcs
-        clo.ensure_parsed()
-        caps = closure_captures(prog, clo, dict(
-            line_changes=Ref(Cell(lcs), ()),
-            blocks_filter=Enum('BlocksFilter', prog.variant_index('BlocksFilter', 'ModifiedOnly'), 'ModifiedOnly')))
-        env = Ref(Cell(Struct('closure', caps)), ())
-        return I.call_fn(clo, [env, g.block])
+        return select_through_parse_file(I, prog, g.block, lcs, 'ModifiedOnly')
 
     for I, pk, val in explore(prog, models.M, run_path, stats=stats, max_paths=5000):
         g, L = holder['g'], holder['L']
@@ -197,10 +212,6 @@ def run_shape(task):
     shape, want_samples = task
     prog = driver.load_program()
     stats = PathStats()
-    clo = prog.fns.get('parse_file::{closure#0}')
-    if not clo:
-        raise EngineError('parse_file::{closure#0} not in the MIR dump')
-    clo = clo[0]
     bf_variants = prog.enum_index.get('BlocksFilter')
     if not bf_variants:
         raise EngineError('enum BlocksFilter not found')
@@ -212,13 +223,7 @@ def run_shape(task):
         def run_path(I, mode=mode):
             g = build(I, prog, shape)
             holder['g'] = g
-            clo.ensure_parsed()
-            # closure environment: (line_changes: &[LineChange], blocks_filter: BlocksFilter)
-            caps = closure_captures(prog, clo, dict(
-                line_changes=Ref(Cell(g.lcs), ()),
-                blocks_filter=Enum('BlocksFilter', prog.variant_index('BlocksFilter', mode), mode)))
-            env = Ref(Cell(Struct('closure', caps)), ())
-            return I.call_fn(clo, [env, g.block])
+            return select_through_parse_file(I, prog, g.block, g.lcs, mode)
 
         for I, kind, val in explore(prog, models.M, run_path, stats=stats, max_paths=50000):
             g = holder['g']
